@@ -559,3 +559,8 @@ impl RusticError {
         })
     }
 }
+
+// verification hook (guard: cfg(kani), set only by the Kani compiler): harnesses live in /verif/kani
+#[cfg(kani)]
+#[path = "/verif/kani/error_stubs.rs"]
+pub(crate) mod verif_kani_stubs;
